@@ -64,7 +64,10 @@ def two_surfaces(cfg):
     s2 = surface(name="tail", nx=3 if cfg["nx"] == 2 else 2, ny=3 if gp or cfg.get("tail_sym") else 3,
                  symmetry=True if gp else cfg.get("tail_sym", not cfg.get("symmetry", True)),
                  side=cfg.get("tail_side", "left"), groundplane=gp, xshift=3.0)
-    return [s1, s2]
+    if cfg.get("nsurf", 1) == 2:
+        return [s1, s2]
+    s3 = surface(name="fin", nx=3, ny=2 if gp else 3, symmetry=True if gp else False, side="right", groundplane=gp, xshift=5.0)
+    return [s1, s2, s3]
 
 
 # ------------------------------------------------------------------------------------------- geometry transformations
@@ -139,6 +142,7 @@ def _surfs(name, path, cfgs=None, ranges=(), cost=1.0, extra_opts=None, **dk):
 
 MULTI = [dict(nx=2, ny=3, symmetry=True, side="left", nsurf=1),
          dict(nx=2, ny=3, symmetry=False, nsurf=1),
+         dict(nx=2, ny=2, symmetry=True, side="right", nsurf=3),
          dict(nx=2, ny=3, symmetry=True, side="left", nsurf=2, _tier=T),
          dict(nx=3, ny=3, symmetry=True, side="right", nsurf=1, _tier=T),
          dict(nx=2, ny=4, symmetry=True, side="left", nsurf=1, _tier=T)]
@@ -168,7 +172,12 @@ _surfs("CollocationPoints", "aerodynamics.collocation_points.CollocationPoints")
 _surfs("VortexMesh", "aerodynamics.vortex_mesh.VortexMesh", cfgs=MULTI_GP)
 _surfs("GetVectors", "aerodynamics.get_vectors.GetVectors", cfgs=MULTI_GP,
        extra_opts=dict(num_eval_points=2, eval_name="coll_pts"))
-_surfs("EvalVelocities", "aerodynamics.eval_velocities.EvalVelocities", extra_opts=dict(num_eval_points=2, eval_name="force_pts"))
+def npanels(cfg):
+    return sum((s["mesh"].shape[0] - 1) * (s["mesh"].shape[1] - 1) for s in two_surfaces(cfg))
+
+
+_surfs("EvalVelocities", "aerodynamics.eval_velocities.EvalVelocities",
+       extra_opts=lambda cfg: dict(num_eval_points=npanels(cfg), eval_name="force_pts"))
 _surfs("HorseshoeCirculations", "aerodynamics.horseshoe_circulations.HorseshoeCirculations")
 _surfs("MeshPointForces", "aerodynamics.mesh_point_forces.MeshPointForces")
 _surfs("VLMMtxRHSComp", "aerodynamics.mtx_rhs.VLMMtxRHSComp")
@@ -274,7 +283,7 @@ _surfs("EvalVelMtx", "aerodynamics.eval_mtx.EvalVelMtx", cfgs=MULTI_GP, cost=15,
 from ._generic import implicit_contract
 
 
-@job("deriv.SolveMatrix", ("C01", "C02", "C03", "C05"), cfgs=MULTI[:3])
+@job("deriv.SolveMatrix", ("C01", "C02", "C03", "C05"), cfgs=MULTI[:2] + MULTI[3:4])
 def _solve_matrix(env, **cfg):
     implicit_contract(env, lambda: cls("aerodynamics.solve_matrix.SolveMatrix")(surfaces=two_surfaces(cfg)))
 
